@@ -1,5 +1,6 @@
 SPECIFICATION Spec
 CONSTANTS MaxLen = 2
+BitSets <- BitsCover3
 Fault = "none"
 INVARIANTS RefinesNamed Reflexive BranchesKnown BranchLog
 CHECK_DEADLOCK FALSE
